@@ -22,7 +22,7 @@ pub fn meta(m: &mut PropMeta) {
     m.explanation = "process-level enumeration with a capturing generator; independent schema decoder; expected request computed from the model";
     m.quick_bound = "constructs alone x 4 scopes x 4 splits x 4 argument lists; all construct pairs; packed files; 3-file splits";
     m.thorough_bound = "same plus all construct pairs x 4 splits";
-    m.quick_cap_s = 90.0;
+    m.quick_cap_s = 150.0;
 }
 
 // ---------------------------------------------------------------------------------------------------------------
